@@ -253,11 +253,9 @@ fn tamper_all(ctx: &Ctx, out: &mut Outcome, run_seed: u64, kind: &'static str, g
                 let a = *addr;
                 match watchdog::guarded("NetcodeServer::process_packet", &d, || srv.process(a, &d)) {
                     Err(c) => {
-                        // a panic is C07's finding, not "content"; the modification still must not have changed anything
-                        out.count("tamper.calls_that_panicked_C07");
-                        out.note(&format!("C17: process_packet panicked on a modified datagram ({}): C07's finding", c.class));
-                        let after = srv.snapshot();
-                        before.diff(&after).map(|w| (format!("{w}-after-panic"), format!("before {:?} after {:?}", before, after)))
+                        // "yields an error, never content": a panic is not an error return
+                        out.count("tamper.calls_that_panicked");
+                        Some(("panicked-instead-of-error".to_string(), format!("NetcodeServer::process_packet panicked: {} ({})", c.msg, c.class)))
                     }
                     Ok(res) => {
                         if res != SResult::None {
@@ -273,10 +271,8 @@ fn tamper_all(ctx: &Ctx, out: &mut Outcome, run_seed: u64, kind: &'static str, g
                 let before = cli.snapshot();
                 match watchdog::guarded("NetcodeClient::process_packet", &d, || cli.process(&d)) {
                     Err(c) => {
-                        out.count("tamper.calls_that_panicked_C07");
-                        out.note(&format!("C17: process_packet panicked on a modified datagram ({}): C07's finding", c.class));
-                        let after = cli.snapshot();
-                        before.diff(&after).map(|w| (format!("{w}-after-panic"), format!("before {:?} after {:?}", before, after)))
+                        out.count("tamper.calls_that_panicked");
+                        Some(("panicked-instead-of-error".to_string(), format!("NetcodeClient::process_packet panicked: {} ({})", c.msg, c.class)))
                     }
                     Ok(Some(p)) => Some(("payload-surfaced".to_string(), format!("{} bytes", p.len()))),
                     Ok(None) => {
